@@ -358,7 +358,7 @@ def gen_cases(ck):
     cases = []
     gen_combos(ck, rng, cases)
     gen_sources(ck, rng, cases)
-    mal = gen_random(ck, rng, cases, 700 if ck.tier == "quick" else 12000)
+    mal = gen_random(ck, rng, cases, 2500 if ck.tier == "quick" else 20000)
     ck.dist["random_malformed"] = mal
     step = 6 if ck.tier == "quick" else 3
     cached = gen_cached(ck, rng, cases, cases[::step])
@@ -408,7 +408,8 @@ def main():
         model = ck.run_model_terms(["Outcome", "Access"], [c.term]) if c.kind == "acc" else None
         print("graph    :")
         for i, n in enumerate(c.meta["g"]):
-            print("   N%d %s" % (i, {k: v for k, v in n.items() if v not in (None, [], True) or k == "value"}))
+            dflt = A.node(n["kind"])
+            print("   N%d %s %s" % (i, n["kind"], {k: v for k, v in n.items() if k != "kind" and v != dflt.get(k)}))
         print("ops      :", c.meta["ops"])
         print("impl     :", impl[0], "op results", c.meta["impl_ops"])
         print("model    :", model[0] if model else None)
